@@ -430,4 +430,14 @@ Proof.
   destruct (IH c1 I1 ch' r Hin) as (I2 & M2 & A2). split; [exact I2|split; [exact (mono_trans _ _ _ M1 M2)|exact A2]].
 Qed.
 
+Lemma C05_send_bound ch ch' w : Inv ch -> chan_send ch = (ch', Some w) ->
+  exists se k, ch_s1 (expire ch) = Some se /\ c_rkey se = Some k /\ ch_remote ch = Some k /\ accept k = true.
+Proof.
+  intros HI. unfold chan_send.
+  destruct (expire_inv ch HI) as ((A & B & C & D) & R).
+  cbn [slot]. destruct (ch_s1 (expire ch)) as [se|] eqn:E1; [|discriminate].
+  destruct B as (Rd & K & Nn). destruct (ch_remote (expire ch)) as [k|] eqn:Ek; [|congruence].
+  intros _. exists se, k. repeat split; auto; congruence.
+Qed.
+
 End WithAccept.
